@@ -989,6 +989,8 @@ pub trait Proto {
     /// ONE core builder object sealed from `nonces.len()` times (set_payload/set_footer/set_implicit_assertion once, or again before each seal)
     fn core_seal_many(key: &KeyMat, nonces: &[Vec<u8>], msg: &str, footer: Option<&str>, ia: Option<&str>, reconfigure: bool) -> Vec<Out<String>>;
     fn core_script(key: &KeyMat, ops: &[CoreOp]) -> Vec<Out<String>>;
+    /// ONE key object (per role) used for a whole sequence of seals and opens, the way applications keep their keys
+    fn core_key_session(key: &KeyMat, steps: &[KStep]) -> Vec<Out<String>>;
     fn generic_seal(key: &KeyMat, ops: &[ClaimOp], footer: Option<&str>, ia: Option<&str>) -> (Out<String>, Vec<&'static str>);
     /// several builds from ONE GenericBuilder (nonce-freshness histories)
     fn generic_seal_many(key: &KeyMat, ops: &[ClaimOp], footer: Option<&str>, ia: Option<&str>, n: usize, reuse: bool) -> Vec<Out<String>>;
@@ -1166,6 +1168,48 @@ macro_rules! impl_proto {
                     }
                     let (o, _) = guard(|| -> Result<String, PasetoError> { seal_core!($kind, $V, b, key, nonce.as_slice()) }, perr);
                     outs.push(o);
+                }
+                outs
+            }
+            #[allow(unused_variables)]
+            fn core_key_session(key: &KeyMat, steps: &[KStep]) -> Vec<Out<String>> {
+                let mut outs: Vec<Out<String>> = Vec::new();
+                let made: Result<(), PasetoError> = (|| {
+                    session_keys!($kind, $V, key, |sk, ok| {
+                        let mut last = String::new();
+                        for st in steps {
+                            match st {
+                                KStep::Seal { nonce, msg, footer, ia } => {
+                                    let (o, _) = guard(
+                                        || -> Result<String, PasetoError> {
+                                            let mut b = Paseto::<$V, $Pu>::builder();
+                                            b.set_payload(Payload::from(msg.as_str()));
+                                            if let Some(f) = footer {
+                                                b.set_footer(Footer::from(f.as_str()));
+                                            }
+                                            ia_builder!($assert, b, ia.as_deref());
+                                            seal_with!($kind, $V, b, sk, nonce.as_slice())
+                                        },
+                                        perr,
+                                    );
+                                    if let Out::Ok(t) = &o {
+                                        last = t.clone();
+                                    }
+                                    outs.push(o);
+                                }
+                                KStep::Open { token, footer, ia } => {
+                                    let tok: &str = token.as_deref().unwrap_or(last.as_str());
+                                    let (o, _) = guard(|| -> Result<String, PasetoError> { open_call!($assert, $V, $Pu, $open, tok, ok, footer.as_deref(), ia.as_deref()) }, perr);
+                                    outs.push(o);
+                                }
+                            }
+                        }
+                        Ok(())
+                    })
+                })();
+                if let Err(e) = made {
+                    // the key objects could not be constructed: every step fails that way
+                    outs = steps.iter().map(|_| Out::Err(format!("KeyCtor/{}", perr(&e)))).collect();
                 }
                 outs
             }
@@ -1609,6 +1653,46 @@ macro_rules! seal_core {
     }};
 }
 
+/// seal with an EXISTING key object
+macro_rules! seal_with {
+    (local, V2, $b:expr, $k:expr, $nonce:expr) => {{
+        if $nonce.len() == 24 {
+            let n = Key::<24>::from($nonce);
+            $b.try_encrypt($k, &PasetoNonce::<V2, Local>::from(&n))
+        } else {
+            let n = Key::<32>::from($nonce);
+            $b.try_encrypt($k, &PasetoNonce::<V2, Local>::from(&n))
+        }
+    }};
+    (local, $V:ident, $b:expr, $k:expr, $nonce:expr) => {{
+        let n = Key::<32>::from($nonce);
+        $b.try_encrypt($k, &PasetoNonce::<$V, Local>::from(&n))
+    }};
+    ($kind:ident, $V:ident, $b:expr, $k:expr, $nonce:expr) => {{
+        let _ = $nonce;
+        $b.try_sign($k)
+    }};
+}
+
+/// the key objects of a session: for local tokens ONE object seals and opens; for public tokens one private and one public key object
+macro_rules! session_keys {
+    (local, $V:ident, $key:expr, |$sk:ident, $ok:ident| $body:expr) => {{
+        let the_key = PasetoSymmetricKey::<$V, Local>::from(key32($key.sym));
+        let $sk = &the_key;
+        let $ok = &the_key;
+        $body
+    }};
+    ($kind:ident, $V:ident, $key:expr, |$sk:ident, $ok:ident| $body:expr) => {{
+        seal_keys!($kind, $V, $key, |sk_obj| {
+            open_keys!($kind, $V, $key, |ok_obj| {
+                let $sk = &sk_obj;
+                let $ok = &ok_obj;
+                $body
+            })
+        })
+    }};
+}
+
 macro_rules! seal_keys {
     (local, $V:ident, $key:expr, |$k:ident| $body:expr) => {{
         let $k = PasetoSymmetricKey::<$V, Local>::from(key32($key.sym));
@@ -1802,6 +1886,18 @@ pub enum CoreOp {
     Footer(String),
     Assertion(String),
     Seal(Vec<u8>),
+}
+
+/// one step of a history on ONE key object (core layer; a fresh core builder per seal)
+#[derive(Clone, Debug, Serialize, Deserialize, PartialEq)]
+pub enum KStep {
+    Seal { nonce: Vec<u8>, msg: String, footer: Option<String>, ia: Option<String> },
+    /// `token: None` = the token of the latest successful Seal
+    Open { token: Option<String>, footer: Option<String>, ia: Option<String> },
+}
+
+pub fn core_key_session(p: P, key: &KeyMat, steps: &[KStep]) -> Vec<Out<String>> {
+    dispatch!(p, T => T::core_key_session(key, steps))
 }
 
 pub fn core_script(p: P, key: &KeyMat, ops: &[CoreOp]) -> Vec<Out<String>> {
